@@ -89,7 +89,86 @@ fn parse_fastq_real(bytes: &[u8], cap: usize) -> Result<Vec<(Vec<u8>, Vec<u8>, V
     Ok(v)
 }
 
-type FaWriter = (&'static str, bool, Box<dyn Fn(&mut Vec<u8>, &[u8], &[u8], usize, &[&[u8]]) -> std::io::Result<()>>);
+/// The `io::Write` the writers write into. Plain: like a `Vec<u8>`. Odd: everything `Write` permits —
+/// short writes of 1..=k bytes, its own `write_vectored` that stops in the middle of any slice, and
+/// `Interrupted` errors now and then (which `write_all` has to retry). The bytes that arrive must be
+/// the same for both.
+pub struct Sink {
+    pub out: Vec<u8>,
+    odd: Option<(Rng, usize)>,
+    pub short_writes: usize,
+    pub vectored_calls: usize,
+}
+
+impl Sink {
+    pub fn plain() -> Sink {
+        Sink { out: vec![], odd: None, short_writes: 0, vectored_calls: 0 }
+    }
+    pub fn odd(seed: u64, max: usize) -> Sink {
+        Sink { out: vec![], odd: Some((Rng::new(seed), max.max(1))), short_writes: 0, vectored_calls: 0 }
+    }
+}
+
+impl std::io::Write for Sink {
+    fn write(&mut self, buf: &[u8]) -> std::io::Result<usize> {
+        match &mut self.odd {
+            None => {
+                self.out.extend_from_slice(buf);
+                Ok(buf.len())
+            }
+            Some((rng, max)) => {
+                if buf.is_empty() {
+                    return Ok(0);
+                }
+                if rng.chance(1, 8) {
+                    return Err(std::io::Error::new(std::io::ErrorKind::Interrupted, "verif-interrupted-write"));
+                }
+                let n = (1 + rng.below(*max)).min(buf.len());
+                if n < buf.len() {
+                    self.short_writes += 1;
+                }
+                self.out.extend_from_slice(&buf[..n]);
+                Ok(n)
+            }
+        }
+    }
+    fn write_vectored(&mut self, bufs: &[std::io::IoSlice<'_>]) -> std::io::Result<usize> {
+        self.vectored_calls += 1;
+        match &mut self.odd {
+            None => {
+                let mut t = 0;
+                for b in bufs {
+                    self.out.extend_from_slice(b);
+                    t += b.len();
+                }
+                Ok(t)
+            }
+            Some((rng, max)) => {
+                if rng.chance(1, 8) && bufs.iter().any(|b| !b.is_empty()) {
+                    return Err(std::io::Error::new(std::io::ErrorKind::Interrupted, "verif-interrupted-write"));
+                }
+                // up to k bytes, across slice borders
+                let mut k = 1 + rng.below(*max);
+                let mut t = 0;
+                for b in bufs {
+                    let n = k.min(b.len());
+                    self.out.extend_from_slice(&b[..n]);
+                    t += n;
+                    k -= n;
+                    if k == 0 {
+                        break;
+                    }
+                }
+                Ok(t)
+            }
+        }
+    }
+    fn flush(&mut self) -> std::io::Result<()> {
+        Ok(())
+    }
+}
+
+type FaWriter = (&'static str, bool, Box<dyn Fn(&mut Sink, &[u8], &[u8], usize, &[&[u8]]) -> std::io::Result<()>>);
 
 fn id_desc(head: &[u8]) -> (&[u8], Option<&[u8]>) {
     match head.iter().position(|b| *b == b' ') {
@@ -237,8 +316,9 @@ pub fn c10(ctx: &Ctx, rep: &mut Report) {
                 }
                 rep.evaluations += 1;
                 rep.map("entry_point_calls", name);
-                let mut out = vec![];
-                let res = guarded(|| wfn(&mut out, &head, &seq, width, &ch));
+                let mut sink = Sink::plain();
+                let res = guarded(|| wfn(&mut sink, &head, &seq, width, &ch));
+                let out = std::mem::take(&mut sink.out);
                 let replay = || {
                     let mut j = ctx.replay_json(idx);
                     j["head"] = json!(show(&head));
@@ -259,6 +339,23 @@ pub fn c10(ctx: &Ctx, rep: &mut Report) {
                         continue;
                     }
                     Ok(Ok(())) => {}
+                }
+                if *mask == masks[0].0 || rng.chance(1, 4) {
+                    // the same call into a writer that does everything `io::Write` permits
+                    let mut odd = Sink::odd(rng.next(), *rng.pick(&[1usize, 2, 3, 7, 64]));
+                    match guarded(|| wfn(&mut odd, &head, &seq, width, &ch)) {
+                        Ok(Ok(())) if odd.out == out => {
+                            rep.count("outputs_compared_with_an_odd_writer");
+                            rep.add("short_writes_accepted", odd.short_writes as u64);
+                        }
+                        Ok(Ok(())) => rep.violation(
+                            &format!("writer-dependent-{}", name),
+                            format!("{}: a writer with short / vectored / interrupted writes received {:?}, a Vec received {:?}", name, show(&odd.out), show(&out)),
+                            replay(),
+                        ),
+                        Ok(Err(e)) => rep.violation("write-error", format!("{} failed on a writer with short writes: {}", name, e), replay()),
+                        Err(c) => crate::m_basic::caught_violation(rep, &c, name, replay()),
+                    }
                 }
                 // round trip through the reference model and through the real reader
                 let r = ref_fasta(&out);
@@ -386,7 +483,9 @@ pub fn c11(ctx: &Ctx, rep: &mut Report) {
             // --- writing functions round trip
             let k = 1 + rng.below(if ctx.miri { 3 } else { 20 });
             let mut recs = vec![];
-            let mut out = vec![];
+            // half of the batches go into a writer with short / vectored / interrupted writes
+            let odd_writer = rng.chance(1, 2);
+            let mut out = if odd_writer { Sink::odd(rng.next(), *rng.pick(&[1usize, 2, 5, 7, 33, 4096])) } else { Sink::plain() };
             for j in 0..k {
                 // a quarter of the records sweep the total size (id + description + sequence + quality)
                 // through 0..1300 bytes, one value per case, so that every exact size is hit
@@ -462,6 +561,11 @@ pub fn c11(ctx: &Ctx, rep: &mut Report) {
                 }
                 recs.push((head, seq, qual));
             }
+            if odd_writer {
+                rep.count("batches_written_into_an_odd_writer");
+                rep.add("short_writes_accepted", out.short_writes as u64);
+            }
+            let out = std::mem::take(&mut out.out);
             let r = ref_fastq(&out);
             let ok = !r.has_err()
                 && r.recs.len() == recs.len()
@@ -506,6 +610,11 @@ pub fn c11(ctx: &Ctx, rep: &mut Report) {
             if !ro.final_term {
                 rep.count("inputs_without_final_terminator");
             }
+            let odd_unchanged = (idx / 4) % 2 == 1;
+            if odd_unchanged {
+                rep.count("unchanged_written_into_an_odd_writer");
+                rep.map("unchanged_odd_writer_by_format", fmt.name());
+            }
             let mut outs: Vec<Vec<u8>> = vec![];
             let mut owned_fa: Vec<fasta::OwnedRecord> = vec![];
             let res = guarded(|| -> Result<(), String> {
@@ -517,17 +626,17 @@ pub fn c11(ctx: &Ctx, rep: &mut Report) {
                             while let Some(x) = rdr.read_record_set(&mut set) {
                                 x.map_err(|e| e.to_string())?;
                                 for rec in &set {
-                                    let mut o = vec![];
+                                    let mut o = if odd_unchanged { Sink::odd(outs.len() as u64 + 11, 1 + outs.len() % 9) } else { Sink::plain() };
                                     rec.write_unchanged(&mut o).unwrap();
-                                    outs.push(o);
+                                    outs.push(o.out);
                                 }
                             }
                         } else {
                             while let Some(x) = rdr.next() {
                                 let rec = x.map_err(|e| e.to_string())?;
-                                let mut o = vec![];
+                                let mut o = if odd_unchanged { Sink::odd(outs.len() as u64 + 11, 1 + outs.len() % 9) } else { Sink::plain() };
                                 rec.write_unchanged(&mut o).unwrap();
-                                outs.push(o);
+                                outs.push(o.out);
                             }
                         }
                     }
@@ -538,18 +647,18 @@ pub fn c11(ctx: &Ctx, rep: &mut Report) {
                             while let Some(x) = rdr.read_record_set(&mut set) {
                                 x.map_err(|e| e.to_string())?;
                                 for rec in &set {
-                                    let mut o = vec![];
+                                    let mut o = if odd_unchanged { Sink::odd(outs.len() as u64 + 11, 1 + outs.len() % 9) } else { Sink::plain() };
                                     rec.write_unchanged(&mut o).unwrap();
-                                    outs.push(o);
+                                    outs.push(o.out);
                                     owned_fa.push(rec.to_owned_record());
                                 }
                             }
                         } else {
                             while let Some(x) = rdr.next() {
                                 let rec = x.map_err(|e| e.to_string())?;
-                                let mut o = vec![];
+                                let mut o = if odd_unchanged { Sink::odd(outs.len() as u64 + 11, 1 + outs.len() % 9) } else { Sink::plain() };
                                 rec.write_unchanged(&mut o).unwrap();
-                                outs.push(o);
+                                outs.push(o.out);
                                 owned_fa.push(rec.to_owned_record());
                             }
                         }
